@@ -115,6 +115,19 @@ func verifH_C14_errors() {
 			verifTag("outside", "other-spelling-accepted")
 			return
 		}
+	case 7:
+		// a valid but large statement (every row rewritten to the largest accepted size:
+		// a log append of several KB). It should succeed; if it does return an error,
+		// the clause applies to it like to any other
+		st := verifGenUpdate(t, "big", 379)
+		err = st.run(rs)
+		verifTag("stmt", "large-valid-update")
+		if err == nil {
+			verifTag("outcome", "accepted")
+			st.apply(db)
+			verifCheckDB(rs, db, "accepted/")
+			return
+		}
 	case 3:
 		err = EvaluateCreateTable(verifCreateStmt(t.name, verifStdCols[:2]), rs)
 		verifTag("stmt", "duplicate-create")
